@@ -572,3 +572,163 @@ def gen_accumulator(src, attempt):
         return ("Definition feed_ref_input : list N := %s.\nDefinition feed_ref_body : list astmt :=\n  [%s]." % (coq_str(m.group(1)), ';\n   '.join(stmts)))
     attempt(out, 'accumulator.rs:feed_ref', body, 'feed_ref_body')
     return '\n'.join(out) + '\n'
+
+
+# ----------------------------------------------------------------------------------------
+# GenPtrCode.v: the raw-pointer methods of the two Slice flavours (ser/flavors.rs, de/flavors.rs)
+
+class PtrParser(AccParser):
+    """statement trees over raw-pointer fields (start / cursor / end)"""
+
+    def pexp(self, t):
+        t = t.strip()
+        while t.startswith('(') and t.endswith(')') and self.balanced(t[1:-1]):
+            t = t[1:-1]
+        m = re.match(r'^\((.+)asusize\)-\((.+)asusize\)$', t)
+        if m and self.balanced(m.group(1)) and self.balanced(m.group(2)):
+            return "(PDiff %s %s)" % (self.pexp(m.group(1)), self.pexp(m.group(2)))
+        m = re.match(r'^self\.(\w+)$', t)
+        if m:
+            return "(PField %s)" % coq_str(m.group(1))
+        m = re.match(r'^(.+)\.add\((\w+)\)$', t)
+        if m and self.balanced(m.group(1)):
+            return "(PAddP %s %s)" % (self.pexp(m.group(1)), self.pexp(m.group(2)))
+        m = re.match(r'^(\w+)\.len\(\)$', t)
+        if m:
+            return "(PLenOf %s)" % coq_str(m.group(1))
+        if re.match(r'^\d+$', t):
+            return "(PConst %s)" % t
+        if re.match(r'^\w+$', t):
+            return "(PVar %s)" % coq_str(t)
+        self.fail("pointer expression `%s`" % t)
+
+    def pcond(self, t):
+        for op, ctor in (('==', 'PEq'), ('<=', 'PLe'), ('>=', 'PGe'), ('<', 'PLt'), ('>', 'PGt')):
+            k = t.find(op)
+            if k > 0:
+                return "(%s %s %s)" % (ctor, self.pexp(t[:k]), self.pexp(t[k + len(op):]))
+        self.fail("condition `%s`" % t)
+
+    def tail(self, t):
+        m = re.match(r'^Err\(Error::(\w+)\)$', t)
+        if m:
+            return "PRetErr %s" % m.group(1)
+        if t == 'Ok(())':
+            return "PRetUnit"
+        m = re.match(r'^Ok\((\w+)\)$', t)
+        if m:
+            return "PRetVar %s" % coq_str(m.group(1))
+        m = re.match(r'^Ok\(core::slice::from_raw_parts(?:_mut)?\((.+),(\w+)\)\)$', t)
+        if m:
+            return "PRetSlice %s %s" % (self.pexp(m.group(1)), self.pexp(m.group(2)))
+        m = re.match(r'^Some\((.+)\)$', t)
+        if m:
+            return "PRetSome %s" % self.pexp(m.group(1))
+        m = re.match(r'^&mut\*(.+)$', t)
+        if m:
+            return "PRetPlace %s" % self.pexp(m.group(1))
+        if re.match(r'^\w+$', t):
+            return "PRetVar %s" % coq_str(t)
+        self.fail("tail expression `%s`" % t)
+
+    def stmt(self):
+        s = self.s
+        if s.startswith('unsafe{', self.i):
+            self.eat('unsafe')
+            inner = self.block()
+            return '; '.join(inner)
+        if s.startswith('if', self.i):
+            self.eat('if')
+            j = s.index('{', self.i)
+            c = s[self.i:j]
+            self.i = j
+            th = self.block()
+            el = []
+            if s.startswith('else', self.i):
+                self.eat('else')
+                el = self.block()
+            return "PIf %s [%s] [%s]" % (self.pcond(c), '; '.join(th), '; '.join(el))
+        if s.startswith('assert!(', self.i):
+            self.eat('assert!(')
+            c = self.until(')')
+            self.eat(';')
+            return "PAssert %s" % self.pcond(c)
+        if s.startswith('return', self.i):
+            self.eat('return')
+            return self.tail(self.until(';'))
+        if s.startswith('let', self.i):
+            self.eat('let')
+            name = self.until('=')
+            e = self.until(';')
+            m = re.match(r'^Ok\(\*(.+)\)$', e)
+            if m:
+                return "PLetOkDeref %s %s" % (coq_str(name), self.pexp(m.group(1)))
+            m = re.match(r'^(?:unsafe\{)?core::slice::from_raw_parts(?:_mut)?\((.+),(\w+)\)\}?$', e)
+            if m:
+                return "PLetSlice %s %s %s" % (coq_str(name), self.pexp(m.group(1)), self.pexp(m.group(2)))
+            return "PLet %s %s" % (coq_str(name), self.pexp(e))
+        m = re.match(r'^self\.(\w+)=', s[self.i:])
+        if m:
+            self.eat('self.' + m.group(1) + '=')
+            return "PSetField %s %s" % (coq_str(m.group(1)), self.pexp(self.until(';')))
+        if s.startswith('core::ptr::copy_nonoverlapping(', self.i):
+            self.eat('core::ptr::copy_nonoverlapping(')
+            a = self.until(',')
+            b = self.until(',')
+            n = self.until(')')
+            self.eat(';')
+            m = re.match(r'^(\w+)\.as_ptr\(\)$', a)
+            if not m:
+                self.fail("copy source `%s`" % a)
+            return "PCopy %s %s %s" % (coq_str(m.group(1)), self.pexp(b), self.pexp(n))
+        m = re.match(r'^(self\.\w+)\.write\((\w+)\);', s[self.i:])
+        if m:
+            self.i += len(m.group(0))
+            return "PWrite %s %s" % (self.pexp(m.group(1)), coq_str(m.group(2)))
+        # tail expression
+        j = self.i
+        d = 0
+        while j < len(s):
+            if s[j] in '([{':
+                d += 1
+            elif s[j] in ')]}':
+                if d == 0:
+                    break
+                d -= 1
+            j += 1
+        t = s[self.i:j]
+        self.i = j
+        if t.startswith('unsafe{') and t.endswith('}'):
+            t = t[7:-1]
+        return self.tail(t)
+
+
+PTR_METHODS = [
+    ('source/postcard/src/ser/flavors.rs', r"impl<'a>\s*Flavor\s+for\s+Slice<'a>", 'try_push', 'ser_slice_try_push'),
+    ('source/postcard/src/ser/flavors.rs', r"impl<'a>\s*Flavor\s+for\s+Slice<'a>", 'try_extend', 'ser_slice_try_extend'),
+    ('source/postcard/src/ser/flavors.rs', r"impl<'a>\s*Flavor\s+for\s+Slice<'a>", 'finalize', 'ser_slice_finalize'),
+    ('source/postcard/src/ser/flavors.rs', r"impl\s+IndexMut<usize>\s+for\s+Slice<'_>", 'index_mut', 'ser_slice_index_mut'),
+    ('source/postcard/src/de/flavors.rs', r"impl<'de>\s*Flavor<'de>\s+for\s+Slice<'de>", 'pop', 'de_slice_pop'),
+    ('source/postcard/src/de/flavors.rs', r"impl<'de>\s*Flavor<'de>\s+for\s+Slice<'de>", 'size_hint', 'de_slice_size_hint'),
+    ('source/postcard/src/de/flavors.rs', r"impl<'de>\s*Flavor<'de>\s+for\s+Slice<'de>", 'try_take_n', 'de_slice_try_take_n'),
+    ('source/postcard/src/de/flavors.rs', r"impl<'de>\s*Flavor<'de>\s+for\s+Slice<'de>", 'finalize', 'de_slice_finalize'),
+]
+
+
+def gen_ptr_code(src, attempt):
+    out = ["(* GENERATED by tools/translate.py from the Rust sources. Do not edit. *)",
+           "From PV Require Import Base PtrDecl.", "Open Scope N_scope.", "",
+           "(* the raw-pointer methods of the two Slice flavours as statement trees *)"]
+    for path, impl_re, meth, coq in PTR_METHODS:
+        def one(path=path, impl_re=impl_re, meth=meth, coq=coq):
+            text = src(path)
+            m = re.search(impl_re, text)
+            if not m:
+                raise Untranslatable("%s: impl `%s` not found" % (path.split('/')[-1], impl_re))
+            sig, body = find_fn(text[m.end():], meth)
+            ps = [p for p in params_of(sig)]
+            p = PtrParser('{' + compact(body) + '}', '%s:%s' % (path.split('/')[-2] + '/' + path.split('/')[-1], meth))
+            stmts = p.block()
+            return "Definition %s : list (list N) * list pstmt :=\n  ([%s], [%s])." % (coq, '; '.join(coq_str(x) for x in ps), '; '.join(stmts))
+        attempt(out, '%s:Slice::%s' % (path.split('/')[-2], meth), one, coq)
+    return '\n'.join(out) + '\n'
